@@ -60,6 +60,7 @@ type pworld struct {
 	seqKey  string // key being created by the sequential request in flight
 	nQueues int
 	burstNo int
+	file    *fileCase
 }
 
 const rollOwnerBase = -1000 // owner of key i's roll-over timer = rollOwnerBase - i
@@ -95,20 +96,30 @@ func (w *pworld) initQueue(k queue.QueueKey) queue.DelayedPriorityQueueable {
 		// wait for the roll-over goroutine of this queue to arm its timer and tag it with the key
 		select {
 		case s := <-w.c.rollCh:
-			w.c.tag(s, rollOwnerBase-ckOf(k))
+			w.c.tag(s, rollOwnerBase-w.ckOf(k))
 		case <-time.After(settleTimeout):
 			panic("harness: roll-over goroutine of a new queue did not arm its timer")
 		}
 	}
 	w.mu.Lock()
 	w.queues[k.RemedyName] = q
-	w.byCK[ckOf(k)] = q
+	w.byCK[w.ckOf(k)] = q
 	w.mu.Unlock()
 	return q
 }
 
-// ckOf: the full queue key (remedy name index, window quota, window size in s) as one number.
-func ckOf(k queue.QueueKey) int {
+// ckOf: the queue key as one number.  Plugin-level cases: (remedy name index, window quota, window
+// size in s).  Policies-file cases: the index of the first declared remedy carrying that name (an
+// accepted file has unique names, so this is THE remedy of the queue).
+func (w *pworld) ckOf(k queue.QueueKey) int {
+	if w.file != nil {
+		for j, d := range w.file.decls {
+			if "n"+strconv.Itoa(d.name) == k.RemedyName {
+				return j
+			}
+		}
+		return 99
+	}
 	idx, _ := strconv.Atoi(strings.TrimPrefix(k.RemedyName, "k"))
 	return idx + 100*int(k.Strategy.WindowQuota) + 10000*int(k.Strategy.WindowSize/time.Second)
 }
@@ -266,6 +277,16 @@ func join(xs []string) string {
 }
 
 func (w *pworld) req(id, key, prio int, quota, winsec int64) string {
+	kname := "k" + strconv.Itoa(key)
+	cfg := w.cfg // the remedy as configured at the time of this request
+	cfg.AllowedRequestCount, cfg.WindowSizeInSeconds = quota, int(winsec)
+	ck := key + 100*int(quota) + 10000*int(winsec)
+	return w.reqWith(id, key, prio, kname, &cfg, ck)
+}
+
+// reqWith sends one request for remedy `kname` configured as `cfg`; `ck` identifies the queue the
+// MODEL expects it to use (its Counts() are reported).
+func (w *pworld) reqWith(id, key, prio int, kname string, cfgp *sharedConfig.StrategyBasedQueueConfig, ck int) string {
 	w.mode = "seq"
 	if _, dup := w.reqs[id]; dup {
 		return "bad-op"
@@ -273,10 +294,10 @@ func (w *pworld) req(id, key, prio int, quota, winsec int64) string {
 	r := &prq{id: id, key: key, res: make(chan string, 1), owner: id}
 	w.reqs[id] = r
 	w.order = append(w.order, r)
-	kname := "k" + strconv.Itoa(key)
-	cfg := w.cfg // the remedy as configured at the time of this request
-	cfg.AllowedRequestCount, cfg.WindowSizeInSeconds = quota, int(winsec)
-	ck := key + 100*int(quota) + 10000*int(winsec)
+	cfg := *cfgp
+	if cfg.Prioritization == nil {
+		cfg.Prioritization = w.cfg.Prioritization
+	}
 	w.wg.Add(1)
 	go func() {
 		defer w.wg.Done()
@@ -392,7 +413,8 @@ func execPlugin(c proto.Case, o *proto.Out) []string {
 		f := strings.Fields(op)
 		a := "bad-op"
 		switch {
-		case len(f) > 0 && f[0] == "pcfg":
+		case len(f) == 0:
+		case f[0] == "pcfg":
 			q, ok1 := kvI(f, "quota")
 			ws, ok2 := kvI(f, "winsec")
 			sz, ok3 := kvI(f, "size")
@@ -402,7 +424,24 @@ func execPlugin(c proto.Case, o *proto.Out) []string {
 				w = newPWorld(q, ws, sz, ttl, t0)
 				a = "ok"
 			}
+		case len(f) > 0 && f[0] == "fcfg":
+			if t0, ok := kvI(f, "t0"); ok && w == nil {
+				w = newPWorld(1, 1, 1, 1, t0)
+				w.file = &fileCase{}
+				a = "ok"
+			}
+		case len(f) > 0 && f[0] == "rcfg":
+			if w == nil && len(f) == 1 {
+				w = newPWorld(1, 1, 1, 1, 0)
+				w.mode = "real"
+				a = "ok"
+			}
 		case w == nil:
+		case w.mode == "real":
+			a = w.realOp(f, o)
+		case w.file != nil && (f[0] == "frem" || f[0] == "fload" || f[0] == "freq"):
+			a = w.fileOp(f, o)
+		case w.file != nil && f[0] != "ptick":
 		case f[0] == "pburst":
 			k, ok1 := kvI(f, "k")
 			r, ok2 := kvI(f, "rounds")
